@@ -165,35 +165,70 @@ def World.init (size headroom : Nat) (prot : Bool) (S : Bytes) (ks : List Nat) :
 
 /-! ## StreamableSourceWrapper over PatchedIceCastClient (HTTP streams) -/
 
+/-- `_readall(fileobject, n)`: raw reads of what is still missing until `n` bytes are
+    there or a read comes back empty (end of the response).  `fuel ≥ n` suffices. -/
+def Src.readAll : Nat → Src → Nat → Src × Bytes
+  | 0, s, _ => (s, [])
+  | fuel + 1, s, n =>
+    if n = 0 then (s, [])
+    else if (s.read n).2 = [] then ((s.read n).1, [])
+    else ((Src.readAll fuel (s.read n).1 (n - (s.read n).2.length)).1,
+          (s.read n).2 ++ (Src.readAll fuel (s.read n).1 (n - (s.read n).2.length)).2)
+
 /-- The download side is a second thread.  Its loop turn has two steps that the consumer
-    can observe separately: `fetch` (wait for room, read at most a block from the
-    response, flag end of stream iff the read came back EMPTY) and `store` (take the lock,
-    add the chunk).  `chunk` is a chunk fetched but not yet stored, `stopped` is
-    `_stop_stream`. -/
+    can observe separately: `fetch` (wait for room, read at most a block of audio from the
+    response — in ICY mode up to the next metadata block, which is then skipped) and
+    `store` (take the lock, add the chunk, and only then flag the end of the stream if the
+    response ended during this turn).  `chunk` is a chunk fetched but not yet stored,
+    `ended` says the turn in progress hit the end of the response, `stopped` is
+    `_stop_stream`, `metaint` the `icy-metaint` header (0 = absent), `untilMeta` the audio
+    bytes left before the next metadata block. -/
 structure IWorld where
   w : World
   chunk : Option Bytes
+  ended : Bool
   stopped : Bool
+  metaint : Nat
+  untilMeta : Nat
   deriving DecidableEq, Repr
 
 inductive IOp
   | fetch (blk : Nat) | store | feed (blk : Nat) | read (n : Nat) | seek (p : Nat) | protect (b : Bool)
   deriving DecidableEq, Repr
 
-/-- first half of a turn of `_download_stream`'s loop (no ICY metadata); `false` = nothing
-    was read (stream already stopped, a chunk is still waiting to be stored, or no room
-    for a whole block). -/
+/-- the reading part of a turn without ICY metadata: one raw read of at most a block -/
+def IWorld.fetchPlain (iw : IWorld) (blk : Nat) : IWorld :=
+  { iw with w := { iw.w with src := (iw.w.src.read blk).1 }, chunk := some (iw.w.src.read blk).2,
+            ended := (iw.w.src.read blk).2.isEmpty }
+
+/-- the reading part of a turn with ICY metadata -/
+def IWorld.fetchIcy (iw : IWorld) (blk : Nat) : IWorld :=
+  let wanted := min iw.untilMeta blk
+  let r := Src.readAll wanted iw.w.src wanted
+  let u := iw.untilMeta - r.2.length
+  if r.2.length < wanted then
+    { iw with w := { iw.w with src := r.1 }, chunk := some r.2, ended := true, untilMeta := u }
+  else if u = 0 then
+    let l := Src.readAll 1 r.1 1
+    match l.2 with
+    | [] => { iw with w := { iw.w with src := l.1 }, chunk := some r.2, ended := true, untilMeta := u }
+    | x :: _ =>
+      { iw with w := { iw.w with src := (Src.readAll (16 * x.toNat) l.1 (16 * x.toNat)).1 },
+                chunk := some r.2, ended := false, untilMeta := iw.metaint }
+  else { iw with w := { iw.w with src := r.1 }, chunk := some r.2, ended := false, untilMeta := u }
+
+/-- first half of a turn of `_download_stream`'s loop; `false` = nothing was read (stream
+    already stopped, a chunk is still waiting to be stored, or no room for a whole block). -/
 def IWorld.fetch (iw : IWorld) (blk : Nat) : IWorld × Bool :=
   if iw.stopped ∨ iw.chunk.isSome then (iw, false)
   else if iw.w.b.fits blk then
-    ({ w := { iw.w with src := (iw.w.src.read blk).1 }, chunk := some (iw.w.src.read blk).2,
-       stopped := (iw.w.src.read blk).2.isEmpty }, true)
+    (if iw.metaint = 0 then iw.fetchPlain blk else iw.fetchIcy blk, true)
   else (iw, false)
 
-/-- second half: `with self._buffer_lock: self._buffer.add(chunk)` -/
+/-- second half: `with self._buffer_lock: self._buffer.add(chunk)`, then the end flag -/
 def IWorld.store (iw : IWorld) : IWorld × Bool :=
   match iw.chunk with
-  | some d => ({ iw with w := { iw.w with b := (iw.w.b.add d).1 }, chunk := none }, true)
+  | some d => ({ iw with w := { iw.w with b := (iw.w.b.add d).1 }, chunk := none, stopped := iw.ended }, true)
   | none => (iw, false)
 
 /-- a whole, uninterrupted turn -/
@@ -215,8 +250,10 @@ def IWorld.run (iw : IWorld) : List IOp → IWorld × List WRes
   | [] => (iw, [])
   | op :: ops => (((iw.step op).1.run ops).1, (iw.step op).2 :: ((iw.step op).1.run ops).2)
 
-def IWorld.init (size headroom : Nat) (prot : Bool) (S : Bytes) (ks : List Nat) : IWorld :=
-  { w := World.init size headroom prot S ks, chunk := none, stopped := false }
+/-- `W` is the body of the HTTP response (the wire: audio only when `metaint = 0`) -/
+def IWorld.init (size headroom : Nat) (prot : Bool) (metaint : Nat) (W : Bytes) (ks : List Nat) : IWorld :=
+  { w := World.init size headroom prot W ks, chunk := none, ended := false, stopped := false,
+    metaint := metaint, untilMeta := metaint }
 
 /-! ## Deterministic test data shared with the harness -/
 
@@ -224,5 +261,22 @@ def IWorld.init (size headroom : Nat) (prot : Bool) (S : Bytes) (ks : List Nat) 
 def patByte (seed i : Nat) : UInt8 := UInt8.ofNat ((seed + i + 17 * (i / 256)) % 256)
 
 def pat (seed start len : Nat) : Bytes := (List.range len).map (fun i => patByte seed (start + i))
+
+/-- metadata block number `i` announcing `l` sixteen-byte units -/
+def metaBlock (l i : Nat) : Bytes :=
+  UInt8.ofNat l :: (List.range (16 * l)).map (fun j => UInt8.ofNat ((165 + 7 * i + j) % 256))
+
+/-- ICY wire: runs of `M` audio bytes, each full run followed by a metadata block whose
+    length byte cycles through `metas` -/
+def icyWireAux (M : Nat) (metas : List Nat) : Nat → Nat → Bytes → Bytes
+  | 0, _, _ => []
+  | fuel + 1, i, a =>
+    if a.length < M then a
+    else a.take M ++ metaBlock (metas.getD (i % metas.length) 0) i ++ icyWireAux M metas fuel (i + 1) (a.drop M)
+
+/-- the response body the harness builds: `alen` pattern bytes of audio, framed when
+    `M > 0`, cut after `cut` bytes -/
+def wire (seed M : Nat) (metas : List Nat) (alen cut : Nat) : Bytes :=
+  if M = 0 then pat seed 0 alen else (icyWireAux M metas (alen + 1) 0 (pat seed 0 alen)).take cut
 
 end PyatvModel.C17
